@@ -296,6 +296,21 @@ def run(rep, tier, root=None):
                   tag + ".get_new_row draws from self._R", "row innovations drawn from %s" % [repr(d.args[0])[:60] for d in draws], m2.where())
         rep.check(all(_size_ok(d.args[4], attrs=True) for d in draws), "Q5.draw-count", tag + ".get_new_row: draw size is nx_size",
                   "draw sizes %s" % [repr(d.args[4]) for d in draws], m2.where())
+        # the screens handed out (views of self._scrn) are values of the run: a later step must build a new buffer, not
+        # overwrite the one earlier screens still look at - otherwise screen k kept from one run differs from screen k of
+        # an identically seeded second run as soon as another row is added
+        hits = []
+        for mname_, meth_ in sorted(cls.all_methods().items()):
+            for ev in fx.summary(meth_).attr_mut.get("_scrn", []):
+                if ev.kind == "data" and ev.func is meth_:
+                    hits.append((meth_, ev))
+        for meth_, ev in hits:
+            rep.violation("Q9.screens-are-values", "%s.%s: %s" % (tag, meth_.name, ev.stmt_text()[:60]),
+                          "self._scrn is modified in place (%s) while the screens returned earlier are views of the same buffer: a screen "
+                          "kept by the caller is rewritten by later rows, so the k-th screen of two identically seeded runs differs "
+                          "unless each is copied at once" % ev.how, ev.where())
+        if not hits:
+            rep.ok("Q9.screens-are-values", tag + ": no method overwrites the screen buffer in place", "every step rebinds self._scrn to a new array")
     # default_rng(Generator) pass-through relies on ft_phase_screen calling default_rng(seed) on its parameter
     rep.floor("draw sites", n_draw, 8)
 
